@@ -73,6 +73,9 @@ def mk(dom, t, offset, kind='finite'):
             vals[(offset + 3) % n] = -np.inf
     elif kind == 'positive':
         vals = vals / 3.0
+    elif kind == 'wide':
+        # slices of very different scale: finite entries spread over +-1500 (far beyond the range of exp)
+        vals = vals / 7.0 + np.where(np.arange(n) % 3 == 0, 1500.0, np.where(np.arange(n) % 3 == 1, -1400.0, 0.0))
     return Factor(d, vals.copy())
 
 
@@ -200,7 +203,7 @@ def unary_cases(acc, dom, pat, t1, k):
     from mbi import Factor
     fails = []
     attrs_all = S.ATTRS[:k]
-    for kind in ('signed', 'neginf', 'positive'):
+    for kind in ('signed', 'neginf', 'positive', 'wide'):
         f = mk(dom, t1, 7, kind)
         T = table(f)
         s = snapshot(f)
@@ -227,6 +230,8 @@ def unary_cases(acc, dom, pat, t1, k):
                 acc.evals += 1
         # aggregations over every subset of axes, given in both orders
         aggs = [('sum', lambda v: sum(v), lambda at: f.sum(at)), ('max', max, lambda at: f.max(at))]
+        if kind == 'wide':
+            aggs = [('max', max, lambda at: f.max(at))]
         if kind != 'positive':
             aggs.append(('logsumexp', lse, lambda at: f.logsumexp(at)))
         for name, red, call in aggs:
@@ -248,7 +253,7 @@ def unary_cases(acc, dom, pat, t1, k):
             if not same(float(tot), red(list(T.values())), 1e-11):
                 fails.append('%s() on %s: %r expected %r' % (name, t1, tot, red(list(T.values()))))
         # project onto every ordered sub-tuple, both aggregations
-        for agg in (['sum'] if kind == 'positive' else ['logsumexp'] if kind == 'neginf' else ['sum', 'logsumexp']):
+        for agg in (['sum'] if kind == 'positive' else ['logsumexp'] if kind in ('neginf', 'wide') else ['sum', 'logsumexp']):
             red = (lambda v: sum(v)) if agg == 'sum' else lse
             for r in range(0, len(t1) + 1):
                 for tgt in itertools.permutations(t1, r):
@@ -293,6 +298,8 @@ def unary_cases(acc, dom, pat, t1, k):
                         cmp_tables(got, ea, exp, 'expand(%r) on %s' % (sup, t1), fails)
                         acc.evals += 1
         # exp / log / copy and their out= forms
+        if kind == 'wide':
+            continue
         if kind != 'positive':
             got = f.exp()
             cmp_tables(got, set(t1), {a: math.exp(v) if v > -math.inf else 0.0 for a, v in T.items()}, 'exp on %s' % (t1,), fails, 1e-12)
